@@ -187,6 +187,14 @@ def classes(tokens):
     # a function at the start of a statement whose `}` is followed by something that continues an expression
     fstart = any(t == 'function' and (i == 0 or sig[i - 1] in (';', '{', '}', ')', ':', 'else', 'do'))
                  for i, t in enumerate(sig))
+    # ... or first on its line (a statement may start there through semicolon insertion)
+    for i, t in enumerate(tokens):
+        if t == 'function':
+            k = i - 1
+            while k >= 0 and is_comment(tokens[k]):
+                k -= 1
+            if k >= 0 and is_lt(tokens[k]):
+                fstart = True
     if fstart:
         for i in range(len(sig)):
             if sig[i] == '}' and (i + 1 == len(sig) and False or (i + 1 < len(sig) and (
